@@ -1,0 +1,48 @@
+//go:build verif
+
+package p2p
+
+import "github.com/canopy-network/canopy/lib"
+
+// VerifStream drives the real Stream.handlePacket (per-topic reassembly and message size cap) directly,
+// for the verification harness in /verif (add-only, no behaviour change; only compiled with -tags verif).
+type VerifStream struct {
+	s      *Stream
+	sender *lib.PeerInfo
+}
+
+// VerifNewStream creates a Stream as NewStreams does. If assembler is non-nil the stream starts with
+// those bytes already buffered (the state after len(assembler) bytes of packets without EOF, which
+// handlePacket only appends); the slice's spare capacity is used by further appends.
+func VerifNewStream(topic lib.Topic, assembler []byte, sender *lib.PeerInfo) *VerifStream {
+	if assembler == nil {
+		assembler = make([]byte, 0)
+	}
+	return &VerifStream{s: &Stream{
+		topic:        topic,
+		msgAssembler: assembler,
+		sendQueue:    make(chan *PacketWithTiming, 1),
+		inbox:        make(chan *lib.MessageAndMetadata, maxInboxQueueSize),
+		logger:       lib.NewNullLogger(),
+	}, sender: sender}
+}
+
+// Handle passes one packet to Stream.handlePacket.
+func (v *VerifStream) Handle(p *Packet) (int32, lib.ErrorI) {
+	return v.s.handlePacket(v.sender, p, nil)
+}
+
+// Buffered returns the number of bytes currently held by the assembler.
+func (v *VerifStream) Buffered() int { return len(v.s.msgAssembler) }
+
+// Delivered drains the stream's inbox.
+func (v *VerifStream) Delivered() (out []*lib.MessageAndMetadata) {
+	for {
+		select {
+		case m := <-v.s.inbox:
+			out = append(out, m)
+		default:
+			return
+		}
+	}
+}
